@@ -265,6 +265,12 @@ Proof using.
   apply ps_if_at; [apply (ps_fail_at s 45%N (sc_mark s)); exact HT|].
   apply ps_put_at; [pos_triv|]. intros [T K]. split; sproj; [exact T|]. constructor; [apply sk_ok_new|exact K].
 Qed.
+Lemma ps_check_closer seq : pstep (check_flow_closer (I:=strin) seq).
+Proof using.
+  unfold check_flow_closer. apply ps_get. intros s HT HQI.
+  destruct (sc_ifms s) as [|st r]; [apply ps_lift, ps_ret|]. cbv zeta.
+  apply ps_if_at; [apply ps_lift, ps_ret|]. destruct st; apply (ps_fail_at s _ (sc_mark s)); exact HT.
+Qed.
 Lemma ps_decr : pstep (decrease_flow_level (I:=strin)).
 Proof using.
   unfold decrease_flow_level. apply ps_get. intros s HT HQI. apply ps_if_at; [|apply ps_lift, ps_ret].
@@ -315,6 +321,7 @@ Ltac ps_one :=
   | |- pstep remove_simple_key => apply ps_remove
   | |- pstep stale_simple_keys => apply ps_stale
   | |- pstep (end_implicit_mapping _) => apply ps_eim; tm
+  | |- pstep (check_flow_closer _) => apply ps_check_closer
   | |- pstep increase_flow_level => apply ps_incr
   | |- pstep decrease_flow_level => apply ps_decr
   | |- pstep (roll_indent _ _ _ _) => apply ps_roll_indent; tm
@@ -483,7 +490,7 @@ Qed.
 Lemma pw_fetch_flow_collection_end F seq pre s :
   MarkAt pre s -> QInv s -> is_breakz (rnth s 0) = false -> pwp (fetch_flow_collection_end str_ops F seq) fpost s.
 Proof using no_nul.
-  intros HM HQI Hz. unfold fetch_flow_collection_end. sks. sks. sks. sks. sks. wmark.
+  intros HM HQI Hz. unfold fetch_flow_collection_end. sks. sks. sks. sks. sks. sks. wmark.
   wskip; [rewrite (same_pos_rnth s) by spc; exact Hz|].
   wupost pos_skip_ws_to_eol. sks. wmark. fin.
 Qed.
